@@ -45,7 +45,7 @@ Proof. vm_compute. auto. Qed.
    the characters [suite_chars] (one per atom, plus 'A') after every access string, complete with respect
    to every `switch` on a character in UriParse.c and UriIp4.c.  Proofs in Proofs/SwitchRefine.v. *)
 From Coq Require Import String.
-From UP Require Import Base.Atoms Base.SuiteChars Generated.SwitchTables Proofs.SwitchRefine.
+From UP Require Import Base.Atoms Base.SuiteChars Generated.SwitchTables Proofs.SwitchBase Proofs.SwitchRefine.
 
 (* every such switch is refined by the atoms (two characters of one atom reach the same case body),
    except the h16 scanner of uriParseIPv6address2, which has one body for a-f and one for A-F *)
